@@ -12,4 +12,6 @@ mod builder;
 #[cfg(kani)]
 mod order;
 #[cfg(kani)]
+mod dnssec;
+#[cfg(kani)]
 mod playback_gen;
